@@ -78,14 +78,20 @@ fn remove_unused_compumethods(module: &mut Module) {
         used_compumethods.insert(typedef_axis.conversion.clone());
     }
     for typedef_characteristic in &mut module.typedef_characteristic {
+        for axis_descr in &typedef_characteristic.axis_descr {
+            used_compumethods.insert(axis_descr.conversion.clone());
+        }
         used_compumethods.insert(typedef_characteristic.conversion.clone());
     }
     for typedef_measurement in &mut module.typedef_measurement {
         used_compumethods.insert(typedef_measurement.conversion.clone());
     }
-    for compu_method in &mut module.compu_method {
-        if let Some(ssr) = compu_method.status_string_ref.as_ref() {
-            used_compumethods.insert(ssr.conversion_table.clone());
+    // an INSTANCE can overwrite the conversion of an axis
+    for instance in &module.instance {
+        for overwrite in &instance.overwrite {
+            if let Some(conversion) = &overwrite.conversion {
+                used_compumethods.insert(conversion.name.clone());
+            }
         }
     }
 
@@ -103,6 +109,9 @@ fn remove_unused_sub_elements(module: &mut Module) {
         if let Some(compu_tab_ref) = &compu_method.compu_tab_ref {
             used_compu_tabs.insert(compu_tab_ref.conversion_table.clone());
         }
+        if let Some(status_string_ref) = &compu_method.status_string_ref {
+            used_compu_tabs.insert(status_string_ref.conversion_table.clone());
+        }
         if let Some(ref_unit) = &compu_method.ref_unit {
             used_units.insert(ref_unit.unit.clone());
         }
@@ -118,10 +127,18 @@ fn remove_unused_sub_elements(module: &mut Module) {
         .compu_vtab_range
         .retain(|item| used_compu_tabs.contains(&item.name));
 
-    // remove all unused UNITs
-    for unit in &module.unit {
-        if let Some(ref_unit) = &unit.ref_unit {
-            used_units.insert(ref_unit.unit.clone());
+    // remove all unused UNITs. A UNIT is also in use if a used UNIT refers to it
+    let mut changed = true;
+    while changed {
+        changed = false;
+        for unit in &module.unit {
+            if used_units.contains(&unit.name) {
+                if let Some(ref_unit) = &unit.ref_unit {
+                    if used_units.insert(ref_unit.unit.clone()) {
+                        changed = true;
+                    }
+                }
+            }
         }
     }
 
